@@ -10,7 +10,7 @@
                       return.
      socksAcceptLoop  defer ln.Close()
                       for { conn, err := ln.AcceptSocks()     (SOCKS negotiation inside)
-                            temporary net.Error -> (pause,) continue ; other error -> break
+                            temporary net.Error -> continue ; other error -> break
                             wg.Add(1); go handler(conn) }
      handler          defer wg.Done(); defer conn.Close()
                       config := the loop's config overridden by the SOCKS arguments
@@ -74,7 +74,6 @@
    step with WF: C15 is assumed here, it is decided by bin/check C15).
 
    Deviation constants (TRUE = the pinned code before the repair):
-     AsIs_Spin          no pause after a temporary AcceptSocks error
      AsIs_SharedConfig  handlers override the loop's config in place
    What-if constant Mut ("none" = the code), each must violate the property named:
      "doneUnbuffered"  done has no buffer                    -> NoLeak
@@ -109,7 +108,7 @@ CONSTANTS
   DialFails,     \* BOOLEAN: transport.Dial may fail (never with the real library)
   EnvLite,       \* BOOLEAN: no read errors / write failures, only ends of stream
   SfScripted,    \* BOOLEAN: the environment drives the snowflake side (FALSE: the real Transport, whose stream stays silent)
-  AsIs_Spin, AsIs_SharedConfig,
+  AsIs_SharedConfig,
   Mut
 
 (* the argument lists of the configurations (a .cfg file cannot spell a sequence) *)
@@ -138,7 +137,7 @@ ArgsTiny == {a \in ArgsFew : \A f \in FieldSet \ {"url", "max", "utls-nosni"} : 
 ASSUME NConns \in Nat /\ NUp \in Nat /\ NDown \in Nat /\ MaxTemp \in Nat /\ MaxPerm \in 0..1
 ASSUME WithMain \in BOOLEAN /\ StdinClose \in BOOLEAN /\ DialFails \in BOOLEAN /\ EnvLite \in BOOLEAN
 ASSUME SfScripted \in BOOLEAN
-ASSUME AsIs_Spin \in BOOLEAN /\ AsIs_SharedConfig \in BOOLEAN /\ Mode \in {"socks", "copy"}
+ASSUME AsIs_SharedConfig \in BOOLEAN /\ Mode \in {"socks", "copy"}
 ASSUME ArgChoices \subseteq ArgsAll /\ NParts \in Nat \ {0} /\ Part \in 0..(NParts - 1)
 ASSUME Mut \in {"none", "doneUnbuffered", "waitBoth", "noDeferConn", "noSfClose", "noShutdownCase", "noWgDone",
                 "breakOnTemp", "rejectEndsLoop", "grantOnBadMax"}
@@ -146,7 +145,7 @@ ASSUME Mut \in {"none", "doneUnbuffered", "waitBoth", "noDeferConn", "noSfClose"
 Conns == 1..NConns
 
 VARIABLES
-  L,        \* accept loop: [pc, temps, pauses, spin, perm, nacc, lncloses]
+  L,        \* accept loop: [pc, temps, pauses, perm, nacc, lncloses]
   C,        \* connections
   M,        \* main: [pc, sigq, stdin, lnClosed]
   shutdown, \* close(shutdown) has happened
@@ -191,7 +190,7 @@ DPcs == {"none", "dial", "copy", "sfclose", "chclose", "done"}
 UPcs == {"none", "read", "write", "signal", "done"}
 
 TypeOK ==
-  /\ L.pc \in {"accept", "backoff", "lnclose", "ended"} /\ L.temps \in 0..MaxTemp /\ L.pauses \in 0..MaxTemp /\ L.spin \in 0..MaxTemp
+  /\ L.pc \in {"accept", "backoff", "lnclose", "ended"} /\ L.temps \in 0..MaxTemp /\ L.pauses \in 0..MaxTemp
   /\ L.perm \in BOOLEAN /\ L.nacc \in 0..NConns /\ L.lncloses \in 0..1
   /\ M.pc \in {"serve", "closing", "broadcast", "wait", "return", "exited"} /\ M.sigq \in 0..1 /\ M.stdin \in {"open", "eof", "sent"} /\ M.lnClosed \in BOOLEAN
   /\ shutdown \in BOOLEAN /\ wg \in 0..NConns
@@ -202,7 +201,7 @@ TypeOK ==
        /\ C[i].done \in 0..2 /\ C[i].recvd \in 0..2 /\ C[i].sclosed \in 0..1 /\ C[i].fclosed \in 0..1
 
 Init ==
-  /\ L = [pc |-> (IF Mode = "copy" THEN "ended" ELSE "accept"), temps |-> 0, pauses |-> 0, spin |-> 0, perm |-> FALSE,
+  /\ L = [pc |-> (IF Mode = "copy" THEN "ended" ELSE "accept"), temps |-> 0, pauses |-> 0, perm |-> FALSE,
           nacc |-> (IF Mode = "copy" THEN 1 ELSE 0), lncloses |-> 0]
   /\ C = [i \in Conns |-> IF Mode = "copy" /\ i = 1 THEN Established ELSE Fresh]
   /\ M = [pc |-> "serve", sigq |-> 0, stdin |-> "open", lnClosed |-> FALSE]
@@ -245,11 +244,19 @@ LAcceptConn(a) ==     \* environment: AcceptSocks returns the next request; wg.A
   /\ wg' = wg + 1
   /\ UNCHANGED <<M, shutdown, shared>>
 
-LAcceptTemp ==
+(* environment: AcceptSocks returns a temporary net.Error.  As-is: continue, AcceptSocks is called again at
+   once (with a listener that keeps failing, e.g. EMFILE, a busy loop).  What the loop does between the error
+   and the next call is NOT a property: a tree that pauses first (AcceptRetryAfterPause) is accepted as well;
+   which of the two was seen is noted by the check, never judged. *)
+AcceptRetryAtOnce ==
   /\ Alive /\ L.pc = "accept" /\ ~M.lnClosed /\ L.temps < MaxTemp
   /\ L' = (IF Mut = "breakOnTemp" THEN [L EXCEPT !.temps = @ + 1, !.pc = "lnclose"]
-           ELSE IF AsIs_Spin THEN [L EXCEPT !.temps = @ + 1, !.spin = @ + 1]
-           ELSE [L EXCEPT !.temps = @ + 1, !.pauses = @ + 1, !.pc = "backoff"])
+           ELSE [L EXCEPT !.temps = @ + 1])
+  /\ UNCHANGED <<C, M, shutdown, wg, shared>>
+
+AcceptRetryAfterPause ==
+  /\ Alive /\ L.pc = "accept" /\ ~M.lnClosed /\ L.temps < MaxTemp /\ Mut # "breakOnTemp"
+  /\ L' = [L EXCEPT !.temps = @ + 1, !.pauses = @ + 1, !.pc = "backoff"]
   /\ UNCHANGED <<C, M, shutdown, wg, shared>>
 
 LBackoffDone ==
@@ -486,7 +493,7 @@ CodeNext ==
   \/ \E i \in Conns : HandlerCode(i) \/ DialCode(i) \/ UCode(i) \/ VCode(i)
 
 EnvNext ==
-  \/ (\E a \in ArgChoices : LAcceptConn(a)) \/ LAcceptTemp \/ LAcceptPerm
+  \/ (\E a \in ArgChoices : LAcceptConn(a)) \/ AcceptRetryAtOnce \/ AcceptRetryAfterPause \/ LAcceptPerm
   \/ (\E i \in Conns : SocksChunk(i) \/ SocksEnd(i, "eof") \/ SocksEnd(i, "err") \/ SocksWriteFail(i)
                         \/ SfChunk(i) \/ SfEnd(i, "eof") \/ SfEnd(i, "err") \/ SfWriteFail(i) \/ DialWillFail(i))
   \/ EnvShutdown \/ MSigterm \/ MStdinEOF
@@ -508,7 +515,8 @@ Spec == Init /\ [][Next]_vars /\ Fairness
 (* Generation grain (gated replay): the environment moves only when the process is at rest *)
 Quiescent == ~ENABLED CodeNext
 GConnect(a)        == Quiescent /\ LAcceptConn(a)
-GAcceptTemp        == Quiescent /\ LAcceptTemp
+GAcceptRetryAtOnce     == Quiescent /\ AcceptRetryAtOnce
+GAcceptRetryAfterPause == Quiescent /\ AcceptRetryAfterPause
 GAcceptPerm        == Quiescent /\ LAcceptPerm
 GSocksChunk(i)     == Quiescent /\ SocksChunk(i)
 GSocksEnd(i, k)    == Quiescent /\ SocksEnd(i, k)
@@ -526,7 +534,7 @@ GenNext ==
   \/ (\E i \in Conns : DDial(i) \/ DCopyRecv(i) \/ DSfClose(i) \/ DChClose(i))
   \/ (\E i \in Conns : UReadChunk(i) \/ UReadEnd(i) \/ UWrite(i) \/ USignal(i))
   \/ (\E i \in Conns : VReadChunk(i) \/ VReadEnd(i) \/ VWrite(i) \/ VSignal(i))
-  \/ (\E a \in ArgChoices : GConnect(a)) \/ GAcceptTemp \/ GAcceptPerm
+  \/ (\E a \in ArgChoices : GConnect(a)) \/ GAcceptRetryAtOnce \/ GAcceptRetryAfterPause \/ GAcceptPerm
   \/ (\E i \in Conns : GSocksChunk(i) \/ GSocksEnd(i, "eof") \/ GSocksEnd(i, "err") \/ GSocksWriteFail(i)
                         \/ GSfChunk(i) \/ GSfEnd(i, "eof") \/ GSfEnd(i, "err") \/ GSfWriteFail(i))
   \/ GShutdown \/ GSigterm \/ GStdinEOF
@@ -570,7 +578,6 @@ ConfigSeenWhenDue ==
 
 LoopEndsOnlyOnPerm == L.pc \in {"lnclose", "ended"} => (L.perm \/ M.lnClosed \/ Mode = "copy")
 LnClosedByLoop == L.pc = "ended" /\ Mode = "socks" => L.lncloses = 1
-NoSpin == L.spin = 0
 
 (* nothing a handler does to its own connection touches the loop or main *)
 HandlersLeaveLoopAlone ==
